@@ -8,9 +8,14 @@ use crate::tok::*;
 use ferrous::pubsub::{pattern_matches, PubSubManager, SubResult, Subscription};
 use std::collections::{BTreeMap, BTreeSet};
 
-pub const CHANNELS: &[&[u8]] = &[b"news", b"news.sports", b"n", b"new", b"", b"x", b"n*", b"ne?s", b"\x00\xff\r\n", b"news.weather"];
+pub const CHANNELS: &[&[u8]] = &[b"news", b"news.sports", b"n", b"new", b"", b"x", b"n*", b"ne?s", b"\x00\xff\r\n", b"news.weather",
+    b"hello", b"hallo", b"[n]ews", b"h]llo", b"news7", b"]", b"-", b"^", b"[abc", b"h\\]llo"];
+/// incl. character classes (eb2d54d): sets, `^` negation, ranges, a failed class after a star, unterminated `[`,
+/// `]` first (empty class), escaped brackets, `-` at the edge, a reversed range, a backslash inside a class
 pub const PATTERNS: &[&[u8]] = &[b"n*", b"ne*", b"news*", b"*", b"news.?ports", b"?", b"news", b"n\\*", b"\\n*", b"*s", b"n*s",
-    b"*.*", b"??ws", b"", b"news\\", b"**", b"*e*s*", b"\x00*"];
+    b"*.*", b"??ws", b"", b"[n]ews", b"n[a-z]*", b"news\\", b"**", b"*e*s*", b"\x00*",
+    b"h[ae]llo", b"h[^e]llo", b"n[^a-d]ws", b"[a-n]*", b"*[0-9]", b"ne[w-z]s", b"[abc", b"n[]ews", b"[]a]", b"[^]", b"[^]]",
+    b"\\[n]ews", b"\\[abc", b"[a-]", b"[z-a]", b"h[\\]]llo", b"[n-]*", b"[^^]", b"*[s]", b"[\x00-\xff]ews"];
 pub const ALPHA: &[u8] = b"ab*?\\";
 
 fn sub_name(s: &Subscription) -> (u8, Vec<u8>) { match s { Subscription::Channel(c) => (0, c.clone()), Subscription::Pattern(p) => (1, p.clone()) } }
@@ -167,6 +172,16 @@ fn text_from(r: &mut Rng, p: &[u8], alpha: &[u8]) -> Vec<u8> {
             b'*' => { for _ in 0..r.below(4) { t.push(*r.pick(alpha)); } k += 1; }
             b'?' => { t.push(*r.pick(alpha)); k += 1; }
             b'\\' if k + 1 < p.len() => { t.push(p[k + 1]); k += 2; }
+            b'[' => {
+                // a member of the class (first ']' ends it), or any byte for a negated one
+                match p[k..].iter().position(|&c| c == b']') {
+                    Some(e) => { let body = &p[k + 1..k + e];
+                                 if body.first() == Some(&b'^') || body.is_empty() { t.push(*r.pick(alpha)); }
+                                 else { let m = *r.pick(body); t.push(if m == b'-' && body.len() >= 3 { body[0] } else { m }); }
+                                 k += e + 1; }
+                    None => { t.push(b'['); k += 1; }
+                }
+            }
             c => { t.push(c); k += 1; }
         }
     }
@@ -183,6 +198,12 @@ pub fn gen(seed: u64, n: usize, tier: &str) -> Vec<Case> {
         op_names("SUB", 1, &[v(b"news")]), op_names("PSUB", 1, &[v(b"n*"), v(b"ne*")]), vec![b("PUB"), b("news"), b("m")] ] });
     cases.push(Case { id: "w-unsub-noentry".into(), outs: vec![], ops: vec![
         op_unsub("UNSUB", 1, Some(&[v(b"a")])), op_unsub("PUNSUB", 1, None), op_unsub("UNSUB", 1, None), vec![b("ISSUB"), i(1)] ] });
+    cases.push(Case { id: "w-class".into(), outs: vec![], ops: vec![
+        op_names("PSUB", 1, &[v(b"[n]ews")]), vec![b("PUB"), b("news"), b("m")], vec![b("PUB"), b("[n]ews"), b("m")] ] });
+    // class syntax where this matcher differs from Redis (finding glob-class-end): the first ']' ends the class
+    cases.push(Case { id: "w-class-end".into(), outs: vec![], ops: vec![
+        op_names("PSUB", 1, &[v(b"h[\\]]llo")]), op_names("PSUB", 2, &[v(b"[abc")]), op_names("PSUB", 3, &[v(b"[z-a]")]),
+        vec![b("PUB"), b("h]llo"), b("m")], vec![b("PUB"), b("h\\]llo"), b("m")], vec![b("PUB"), b("a"), b("m")], vec![b("PUB"), b("m"), b("m")] ] });
     cases.push(Case { id: "w-unit".into(), outs: vec![], ops: vec![
         op_names("SUB", 1, &[v(b"news")]), op_names("SUB", 2, &[v(b"news")]), op_names("PSUB", 3, &[v(b"news*")]),
         vec![b("PUB"), b("news"), b("hello")], vec![b("PUB"), b("news.sports"), b("goal!")],
@@ -200,8 +221,15 @@ pub fn gen(seed: u64, n: usize, tier: &str) -> Vec<Case> {
         let ops = chunk.iter().map(|p| vec![b("MATCHP"), bv(p), i(tl as i64), bv(ALPHA)]).collect();
         cases.push(Case { id: format!("m-{}", k), ops, outs: vec![] });
     }
+    // classes: exhaustive over the bracket alphabet (a [ ] ^ -) for patterns, (a b - ]) for texts
+    let (bpl, btl) = if tier == "thorough" { (6, 4) } else { (5, 3) };
+    let bpats: Vec<Vec<u8>> = strings_upto(b"a[]^-", bpl).into_iter().filter(|p| p.contains(&b'[')).collect();
+    for (k, chunk) in bpats.chunks(200).enumerate() {
+        let ops = chunk.iter().map(|p| vec![b("MATCHP"), bv(p), i(btl as i64), bv(b"ab-]")]).collect();
+        cases.push(Case { id: format!("mb-{}", k), ops, outs: vec![] });
+    }
     // longer random pairs over a richer alphabet, texts derived from the pattern
-    let rich: &[u8] = b"abc*?\\-^.\x00\xff";   // no [ ] until Model/PubSub.v ps_match follows eb2d54d (classes)
+    let rich: &[u8] = b"abc*?\\[]-^.\x00\xff";
     let nm = if tier == "thorough" { 400 } else { 40 };
     for k in 0..nm {
         let mut ops = vec![];
@@ -292,7 +320,7 @@ pub fn judge(c: &Case, outs: &[Vec<Tok>]) -> Vec<String> {
                     got.push((tok_int(&out[pos]), if tok_int(&out[pos + 1]) == 1 { Some(tok_bytes(&out[pos + 2]).to_vec()) } else { None })); pos += 3; }
                 expect.sort(); got.sort();
                 if out.is_empty() || tok_int(&out[0]) != expect.len() as i128 || got != expect {
-                    let class = if classy { " class=pubsub-glob-class" } else { "" };
+                    let class = if classy { " class=glob-class-end" } else { "" };
                     fails.push(format!("FAIL case={} op={} deliveries differ from one per matching subscription (expected {}, got {}){}", c.id, k, expect.len(), got.len(), class));
                 }
             }
@@ -306,7 +334,8 @@ pub fn judge(c: &Case, outs: &[Vec<Tok>]) -> Vec<String> {
 pub fn is_tcp(c: &Case) -> bool { c.ops.first().map_or(false, |o| o.first() == Some(&b("CONN"))) }
 
 const TCH: &[&[u8]] = &[b"news", b"news.sports", b"n", b"x", b"\x00\xff\r\n$5", b"ne?s", b""];
-const TPAT: &[&[u8]] = &[b"n*", b"ne*", b"news*", b"*", b"news.?ports", b"?", b"news", b"n\\*", b"*s", b"\x00*", b"**"];
+const TPAT: &[&[u8]] = &[b"n*", b"ne*", b"news*", b"*", b"news.?ports", b"?", b"news", b"n\\*", b"*s", b"\x00*", b"[n]ews", b"**",
+    b"n[a-f]ws", b"[^x]*", b"ne[^a-v]s*", b"[mn]", b"\\[n]ews", b"*[s]", b"[\x00-\x10]*"];
 
 fn payload(r: &mut Rng, serial: &mut u32) -> Vec<u8> {
     *serial += 1;
@@ -452,7 +481,8 @@ fn tcp_witnesses() -> Vec<Case> {
 /// Transactions (51742a5): inside MULTI every request answers QUEUED and has no effect; DISCARD and a
 /// WATCH-aborted EXEC drop the queue; EXEC runs it - messages are delivered then (to the client itself before
 /// the EXEC reply), confirmations and counts are the elements of the EXEC reply.
-struct JSt { subs: BTreeMap<i128, (Vec<Vec<u8>>, Vec<Vec<u8>>)>, queue: BTreeMap<i128, Vec<V>> }
+struct JSt { subs: BTreeMap<i128, (Vec<Vec<u8>>, Vec<Vec<u8>>)>, queue: BTreeMap<i128, Vec<V>>,
+             deviated: bool }   // a PUBLISH met a pattern whose class syntax this matcher reads differently from Redis (finding glob-class-end)
 /// effect of one command of client `id` outside MULTI (or at EXEC): (frames pushed to itself, reply frames)
 fn j_apply(st: &mut JSt, id: i128, req: &[V]) -> Option<(Vec<V>, Vec<V>)> {
     let bulk = |x: &[u8]| V::Bulk(x.to_vec());
@@ -482,14 +512,17 @@ fn j_apply(st: &mut JSt, id: i128, req: &[V]) -> Option<(Vec<V>, Vec<V>)> {
         (b"PUBLISH", Some(a)) if a.len() == 2 => {
             let (ch, msg) = (&a[0], &a[1]); let mut count = 0;
             let ids: Vec<i128> = st.subs.keys().cloned().collect();
+            let mut deviated = false;
             for d in ids {
                 let e = &st.subs[&d]; let mut fr = vec![];
                 if e.0.contains(ch) { fr.push(V::Array(vec![bulk(b"message"), V::Bulk(ch.clone()), V::Bulk(msg.clone())])); }
+                if e.1.iter().any(|p| p.contains(&b'[') && redis_match(p, ch) != pattern_matches(p, ch)) { deviated = true; }
                 let mut ps: Vec<&Vec<u8>> = e.1.iter().filter(|p| redis_match(p, ch)).collect(); ps.sort();
                 for p in ps { fr.push(V::Array(vec![bulk(b"pmessage"), V::Bulk(p.clone()), V::Bulk(ch.clone()), V::Bulk(msg.clone())])); }
                 count += fr.len() as i64;
                 if d == id { own.extend(fr); } else { st.queue.get_mut(&d).unwrap().extend(fr); }
             }
+            if deviated { st.deviated = true; }
             rep.push(V::Int(count));
         }
         (b"PUBLISH", _) => rep.push(err),
@@ -503,10 +536,10 @@ fn j_apply(st: &mut JSt, id: i128, req: &[V]) -> Option<(Vec<V>, Vec<V>)> {
 fn judge_tcp(c: &Case, outs: &[Vec<Tok>]) -> Vec<String> {
     let mut fails = vec![];
     if !c.id.starts_with("s-") { return fails; }
-    let mut st = JSt { subs: BTreeMap::new(), queue: BTreeMap::new() };
+    let mut st = JSt { subs: BTreeMap::new(), queue: BTreeMap::new(), deviated: false };
     let mut tx: BTreeMap<i128, Vec<Vec<V>>> = BTreeMap::new();          // open transactions: queued requests
     let mut watching: BTreeMap<i128, BTreeSet<Vec<u8>>> = BTreeMap::new(); let mut dirty: BTreeSet<i128> = BTreeSet::new();
-    let classy = |st: &JSt| st.subs.values().any(|e| e.1.iter().any(|p| p.contains(&b'[')));
+    let classy = |st: &JSt| st.deviated;
     for (k, (op, out)) in c.ops.iter().zip(outs.iter()).enumerate() {
         let name = tok_bytes(&op[0]).to_vec();
         match &name[..] {
@@ -573,7 +606,7 @@ fn judge_tcp(c: &Case, outs: &[Vec<Tok>]) -> Vec<String> {
                 if got != expect {
                     let cl = classy(&st);
                     fails.push(format!("FAIL case={} op={} frames received by client {} differ from acknowledgements / matching messages in publish order (expected {}, got {}){}",
-                        c.id, k, id, expect.len(), got.len(), if cl { " class=pubsub-glob-class" } else { "" }));
+                        c.id, k, id, expect.len(), got.len(), if cl { " class=glob-class-end" } else { "" }));
                     if cl { return fails; }
                 }
             }
